@@ -1,8 +1,11 @@
 /-
 C15 — model of qnet/rpc.go (HEAD, with the repairs of D9 and D15): the RPC client's bookkeeping as a
-labelled transition system.  Every method of RpcClient that touches the tables runs under one mutex,
-so one method call is one action; `call` is enabled only while the request queue has room (the real
-makeCall blocks there, holding the mutex — nothing else can observe the half-made call).  The clock
+labelled transition system.  Every critical section of RpcClient (one mutex) is one action; `call` is
+enabled only while the request queue has room (the real makeCall blocks there, holding the mutex —
+nothing else can observe the half-made call).  `ReapTimeout` is NOT one action: `strip` (stripExpired,
+under the mutex: takes the expired list, leaves an empty one) is followed by one `complete` step per
+stripped call, outside the mutex — calls, responses, sweeps and further strips (by the callbacks
+themselves or by other goroutines) can happen between any two of them.  The clock
 is a parameter: `call` carries the deadline the real code computed, `sweep` the instant of the sweep.
 What a response packet carries is reduced to what `RpcContext.run` looks at (`Pkt`): the error flag,
 the numeric body, the command, and the result of `Decode` (an oracle column: protobuf is not modelled).
@@ -22,14 +25,20 @@ structure Params where
   /-- makeCall skips sequence numbers present in the pending table (false: the defect D15) -/
   seqSkipsPending : Bool
   seqBits : Nat
+  /-- stripExpired installs a freshly made slice as the live expired list, so the batch it hands out shares no
+  storage with it.  The model's `strip` treats batch and live list as independent values; that is faithful
+  only if this holds (otherwise a sweep during the completion loop would overwrite the batch) -/
+  stripFresh : Bool
 deriving Repr
 
 def params : Params :=
   { ttlNs := Gen.C15.ttlNs, timeoutCode := Gen.C15.timeoutCode, internalError := Gen.C15.internalError,
-    errnoReadsBody := Gen.C15.errnoReadsBody, seqSkipsPending := Gen.C15.seqSkipsPending, seqBits := Gen.C15.seqBits }
+    errnoReadsBody := Gen.C15.errnoReadsBody, seqSkipsPending := Gen.C15.seqSkipsPending, seqBits := Gen.C15.seqBits,
+    stripFresh := Gen.C15.stripFresh }
 
 def Valid (P : Params) : Prop :=
-  0 < P.ttlNs ∧ 0 < P.timeoutCode ∧ 0 < P.internalError ∧ P.errnoReadsBody = true ∧ P.seqSkipsPending = true ∧ P.seqBits = 16
+  0 < P.ttlNs ∧ 0 < P.timeoutCode ∧ 0 < P.internalError ∧ P.errnoReadsBody = true ∧ P.seqSkipsPending = true ∧ P.seqBits = 16 ∧
+  P.stripFresh = true
 
 instance (P : Params) : Decidable (Valid P) := by unfold Valid; infer_instance
 
@@ -57,7 +66,8 @@ structure St where
   cap : Nat
   counter : Seq
   pending : List (Seq × Ctx)            -- pendingCtx (a map: keys distinct)
-  expired : List Ctx
+  expired : List Ctx                    -- c.expired: swept, waiting for the next ReapTimeout
+  batches : List (List Ctx)             -- per ReapTimeout under way: stripped calls it has not completed yet
   queue : List (Seq × Nat)              -- request packets not yet consumed: (seq, ctx id)
   nextId : Nat                          -- ids are handed out in call order
   refused : List Nat                    -- calls refused because every sequence number is outstanding
@@ -69,7 +79,7 @@ structure St where
 deriving Repr
 
 def mkInit (cap : Nat) : St :=
-  { cap := cap, counter := 0, pending := [], expired := [], queue := [], nextId := 0, refused := [],
+  { cap := cap, counter := 0, pending := [], expired := [], batches := [], queue := [], nextId := 0, refused := [],
     completions := [], callbacks := [], doneBuf := [], returned := [], unmatched := 0 }
 
 def keys (l : List (Seq × Ctx)) : List Seq := l.map (·.1)
@@ -109,7 +119,10 @@ inductive Act
   | pop                               -- the consumer of PendingQueue takes one request packet
   | dispatch (seq : Seq) (p : Pkt)    -- Dispatch(pkt)
   | sweep (now : Int)                 -- reapTimeout(now) (the reaper goroutine's tick)
-  | reap                              -- ReapTimeout()
+  | strip                             -- ReapTimeout(): stripExpired() — a new batch, the live list emptied
+  | complete (b k : Nat)              -- the ReapTimeout owning batch b completes its call at position k
+                                      -- (the real loop goes front to back, i.e. k = 0; the position within a
+                                      -- batch comes from a map iteration, so any k is allowed here)
   | wake (id : Nat)                   -- the blocking caller `id` receives from its done channel
   | setCounter (v : Seq)              -- hook: any counter position
 deriving Repr
@@ -135,7 +148,14 @@ def step (P : Params) (s : St) : Act → Option St
   | .sweep now =>
     some { s with expired := s.expired ++ (s.pending.filter (fun e => now > e.2.dl)).map (·.2),
                   pending := s.pending.filter (fun e => !(now > e.2.dl)) }
-  | .reap => some (s.expired.foldl (fun s c => run P s c (timeoutPkt P)) { s with expired := [] })
+  | .strip => some { s with batches := s.batches ++ [s.expired], expired := [] }
+  | .complete b k =>
+    match s.batches[b]? with
+    | some l =>
+      match l[k]? with
+      | some c => some (run P { s with batches := s.batches.set b (l.eraseIdx k) } c (timeoutPkt P))
+      | none => none
+    | none => none
   | .wake id =>
     match s.doneBuf.find? (fun e => e.1 == id) with
     | some e => some { s with doneBuf := s.doneBuf.filter (fun e => e.1 != id), returned := s.returned ++ [e] }
